@@ -4,6 +4,8 @@ import SpoxModel.Props.C19
 #print axioms C19.generator_consistent
 #print axioms C19.modules_covered
 #print axioms C19.sites_good
+#print axioms C19.callgraph_safe
+#print axioms C19.no_callback_reachable
 #print axioms C19.args_prescribed_if
 #print axioms C19.args_prescribed_sequence_map
 #print axioms C19.args_prescribed_scan_partial
